@@ -336,22 +336,22 @@ func (cw *CountingWindow) getKey(data any) string {
 	v := reflect.ValueOf(data)
 	keyParts := make([]string, 0, len(keys))
 	for _, k := range keys {
-		var part string
+		part := nullKeyPart
 		switch v.Kind() {
 		case reflect.Map:
 			if v.Type().Key().Kind() == reflect.String {
 				mv := v.MapIndex(reflect.ValueOf(k))
-				if mv.IsValid() {
-					part = cast.ToString(mv.Interface())
+				if mv.IsValid() && mv.Interface() != nil {
+					part = escapeKeyPart(cast.ToString(mv.Interface()))
 				}
 			}
 		case reflect.Struct:
 			f := v.FieldByName(k)
-			if f.IsValid() {
-				part = cast.ToString(f.Interface())
+			if f.IsValid() && f.Interface() != nil {
+				part = escapeKeyPart(cast.ToString(f.Interface()))
 			}
 		}
 		keyParts = append(keyParts, part)
 	}
-	return strings.Join(keyParts, "|")
+	return strings.Join(keyParts, groupKeySeparator)
 }
